@@ -197,13 +197,33 @@ def _length_plus_small_constant(B, bb, t):
             rv = st["rv"]
     if rv is None or rv.get("k") != "binop" or rv.get("op") != "AddWithOverflow":
         return False
+    # each operand is a small constant or a length (of a string, or of a slice / Vec whose elements have a size): a length is at most
+    # isize::MAX, so the sum of two of them, or of one and a small constant, fits usize on every input
+    def small_const(o):
+        return o.get("k") == "const" and isinstance(o.get("bits"), int) and 0 <= o["bits"] < 65536 and o.get("ty") == "usize"
+
+    def is_length(o):
+        if o.get("k") not in ("copy", "move"):
+            return False
+        os_ = M.trace(B, o, ())
+        if not os_:
+            return False
+        for x in os_:
+            if x.kind != "call" or x.proj:
+                return False
+            d = M.Body.callee_decl(x.term) or ""
+            if d in STRING_LENGTHS:
+                continue
+            if d.endswith(("[T]>::len", "Vec::<T, A>::len")) and x.term.get("args"):
+                a0 = x.term["args"][0]
+                ty = B.local_ty(a0["p"]["l"]) if a0.get("k") in ("copy", "move") else ""
+                inner = ty.replace("&", "").replace("mut ", "").strip()
+                if inner.startswith(("[", "std::vec::Vec<")) and "()" not in inner and "PhantomData" not in inner:
+                    continue
+            return False
+        return True
     ops = [rv["a"], rv["b"]]
-    consts = [o for o in ops if o.get("k") == "const" and isinstance(o.get("bits"), int) and 0 <= o["bits"] < 65536 and o.get("ty") == "usize"]
-    others = [o for o in ops if o.get("k") in ("copy", "move")]
-    if len(consts) != 1 or len(others) != 1:
-        return False
-    os_ = M.trace(B, others[0], ())
-    return bool(os_) and all(o.kind == "call" and (M.Body.callee_decl(o.term) or "") in STRING_LENGTHS and not o.proj for o in os_)
+    return all(small_const(o) or is_length(o) for o in ops) and any(is_length(o) for o in ops)
 
 
 def scan_panics(crate):
@@ -244,6 +264,56 @@ WELL_FOUNDED_STEPS = ("Node::<'a, 'input>::parent", "Node::<'a, 'input>::parent_
                       "std::path::Path::parent", "std::error::Error::source", "::checked_sub", "::checked_div", "str>::strip_prefix", "str>::strip_suffix")
 
 
+def _counter_with_membership_exit(crate, B, bb, t):
+    """`successors(Some(k), |n| Some(n + 1))` (wrapping / checked / saturating) that is consumed — through `map`, `chain`, `filter` .. — by a
+    `find` / `find_map` / `position` / `any` whose predicate tests membership in a collection (`!existing.iter().any(..)`,
+    `!set.contains(..)`): the search ends at the latest after as many candidates as the collection has entries, plus one."""
+    step_ok = False
+    for o in M.trace(B, t["args"][1], ()):
+        if o.kind == "aggregate" and o.rv.get("closure"):
+            cb = crate.body(o.rv["closure"])
+            if cb is not None and cb.get("mir"):
+                CB = M.Body(cb)
+                steps = [M.Body.callee_decl(ct) or "" for _b, ct in CB.calls()]
+                arith = any(st["k"] == "assign" and st["rv"].get("k") == "binop" and str(st["rv"].get("op", "")).startswith("Add")
+                            for i_ in CB.reach for st in CB.blocks[i_]["stmts"])
+                if (any(s_.endswith(("wrapping_add", "checked_add", "saturating_add")) for s_ in steps) or arith) and not M.cfg_cycles(CB):
+                    step_ok = True
+    if not step_ok:
+        return False
+    ADAPT = ("Iterator::map", "Iterator::chain", "Iterator::filter", "Iterator::filter_map", "Iterator::skip", "Iterator::peekable", "Iterator::by_ref",
+             "IntoIterator::into_iter", "iter::once")
+    for fbb, ft in B.calls():
+        fd = M.Body.callee_decl(ft) or ""
+        if not fd.endswith(("Iterator::find", "Iterator::find_map", "Iterator::position", "Iterator::any")) or len(ft.get("args") or []) != 2:
+            continue
+        # does what is searched come from the counter?
+        seen, todo, linked = set(), [ft["args"][0]], False
+        while todo and not linked:
+            op = todo.pop()
+            for o in M.trace(B, op, M.IDENTITY_CALLS):
+                if o.kind != "call":
+                    continue
+                if o.bb == bb:
+                    linked = True
+                    break
+                if o.bb in seen:
+                    continue
+                seen.add(o.bb)
+                if (M.Body.callee_decl(o.term) or "").endswith(ADAPT):
+                    todo += list(o.term.get("args") or [])
+        if not linked:
+            continue
+        for o in M.trace(B, ft["args"][1], ()):
+            if o.kind == "aggregate" and o.rv.get("closure"):
+                cb = crate.body(o.rv["closure"])
+                if cb is not None and cb.get("mir"):
+                    inner = [M.Body.callee_decl(ct) or "" for _b, ct in M.Body(cb).calls()]
+                    if any(x.endswith(("Iterator::any", "::contains", "::contains_key", "Iterator::all")) for x in inner):
+                        return True
+    return False
+
+
 def scan_endless_iterators(crate):
     """Iterator sources that have no end of their own. -> [(fn, site, source, verdict)] with verdict 'well-founded' (a `successors`
     whose step function only makes well-founded steps), 'bounded' (consumed through `take`) or 'endless'."""
@@ -267,6 +337,8 @@ def scan_endless_iterators(crate):
                                 verdict = "well-founded"
                     elif o.kind == "const" and str(o.const.get("fn_path", "")).endswith(WELL_FOUNDED_STEPS):
                         verdict = "well-founded"
+            if verdict == "endless" and d.endswith("successors") and len(t.get("args") or []) == 2 and _counter_with_membership_exit(crate, B, bb, t):
+                verdict = "bounded"      # a counter that is left as soon as a candidate is not among the existing ones (pigeonhole)
             if verdict == "endless" and t.get("dest") is not None:
                 dl = t["dest"]["l"]
                 for bb2, t2 in B.calls():
